@@ -145,7 +145,12 @@ class Check:
             self.seed = 0
         self.t0 = time.time()
         kf = load_known()
-        self.known = {f["key"]: f for f in kf.get("findings", []) if f["property"] == pid}
+        # a finding (one root cause, one witness) lists the key, or the keys, of every input class it makes fail
+        self.known = {}
+        for f in kf.get("findings", []):
+            if f["property"] == pid:
+                for key in ([f["key"]] if "key" in f else []) + list(f.get("keys", [])):
+                    self.known[key] = f
         self.known_hit = {}
         self.new = []  # (key, witness, what)
         self.new_keys = {}
@@ -174,9 +179,12 @@ class Check:
     # -- finish -------------------------------------------------------------------------------
     def finish(self):
         wall = time.time() - self.t0
+        by_finding = {}
         for key, n in sorted(self.known_hit.items()):
-            f = self.known[key]
-            print(f"KNOWN-FINDING: property={self.pid} {key}: {f['what']} (hit by {n} cases this run)")
+            by_finding.setdefault(id(self.known[key]), (self.known[key], []))[1].append((key, n))
+        for f, hits in by_finding.values():
+            keys = ", ".join(f"{k} x{n}" for k, n in hits)
+            print(f"KNOWN-FINDING: property={self.pid} {f.get('name', hits[0][0])}: {f['what']} (hit this run: {keys})")
         rdir = os.path.join(REPLAYS, self.pid)
         lines = []
         if self.new:
